@@ -5,6 +5,13 @@ Ring 1: FM/Props/C08.lean about the text-level model `smartQuotes` (Q_POINTWISE,
 Ring 2: equality of model and `smart_quotes` on all short strings over a 16-symbol alphabet + random long strings.
 Ring 3: document level — reformat_text with smartquotes on vs off: same length, same line breaks,
         differences only ' → ‘ ’ and " → “ ”, never inside code/tags/HTML/URLs.
+        Q_PAIRED: every converted opening/closing quote has its partner quote character inside the same
+        blank-line-delimited chunk of the output (quotes are only paired within one paragraph).
+        Scoped documents: every kind of inline scope (ATX/setext heading, table cell, paragraph at top level
+        and in multi-paragraph list items, block quotes and footnote definitions) filled with quote words,
+        non-ASCII spaces/letters/quote look-alikes and quotations that open in one scope and close in the
+        next one; on top of the on/off oracles, Q_LOCAL: the sequence of quote characters of the document
+        equals the concatenation of the sequences of its scopes formatted on their own.
 """
 from __future__ import annotations
 
@@ -79,6 +86,7 @@ def run(ctx: Ctx) -> None:
     if driver_ok:
         ctx.guard("tie quotes", tie_quotes)
     doc_oracle(ctx, ctx.scale(400, 6000))
+    scoped_oracle(ctx, ctx.scale(220, 3000))
     ctx.assume("`\\w` of Python's re is a parameter (flags per character computed by re itself)")
     ctx.assume("rewrite_text_across_inlines / Marko inline parsing are covered by the document-level oracle, not by a theorem yet")
 
@@ -98,15 +106,263 @@ def doc_oracle(ctx: Ctx, n: int) -> None:
             ctx.fail("format raised", {"doc": doc, "opts": o}, repr(e))
             continue
         ctx.count(["doc", doc, o], nontrivial=on != off, sample=(i % 977 == 3))
+        onoff_oracles(ctx, {"doc": doc, "opts": o}, off, on)
+
+
+def onoff_oracles(ctx: Ctx, case: dict, off: str, on: str) -> bool:
+    """The oracles on one (smartquotes off, smartquotes on) pair of outputs; True when all hold."""
+    import mdgen
+    if not qrel_ok(off, on):
+        ctx.fail("Q_DOC: smartquotes on/off differ in length, line breaks or in a non-quote character", case, {"off": off, "on": on})
+        return False
+    # protected spans (located in the OFF output) must be untouched
+    for a, b in mdgen.protected_spans(off):
+        if off[a:b] != on[a:b]:
+            ctx.fail("Q_PROTECTED: a quote inside code/tag/HTML/URL/escape changed", case, {"span": off[a:b], "became": on[a:b]})
+            return False
+    bad = unpaired_conversion(off, on)
+    if bad is not None:
+        ctx.fail("Q_PAIRED: a quote was converted as one half of a pair whose other half is not in the same paragraph", case,
+                 {"position": bad[0], "became": bad[1], "paragraph_off": bad[2], "paragraph_on": bad[3]})
+        return False
+    return True
+
+
+_CHUNK_BREAK = re.compile(r"^[ \t>]*$")
+
+
+def unpaired_conversion(off: str, on: str):
+    """Quotes are only paired within one paragraph.  A paragraph (heading, cell, …) never contains a blank
+    line (or a line holding only block-quote markers), so it lies inside one maximal run of non-blank output
+    lines (a chunk; a chunk may hold several paragraphs — tight list items, table rows — which only makes the
+    test weaker, never wrong).  A straight quote that became an OPENING curly quote was the first half of a
+    pair, so a quote character of the same kind must follow it inside its chunk; one that became a CLOSING
+    curly quote needs one before it — except ’ directly after a word character, which may be an apostrophe.
+    The partner is looked for in the OFF text and may be any straight quote of that kind (an escaped one or
+    one inside a code span may close a pair without changing itself).  Requires qrel_ok(off, on).
+    Returns None or (position, new character, chunk of off, chunk of on)."""
+    pos = 0
+    chunks: list[tuple[int, int]] = []
+    start = None
+    for line in off.split("\n"):
+        a, b = pos, pos + len(line)
+        pos = b + 1
+        if _CHUNK_BREAK.match(line):
+            if start is not None:
+                chunks.append((start, a))
+                start = None
+        elif start is None:
+            start = a
+    if start is not None:
+        chunks.append((start, len(off)))
+    for a, b in chunks:
+        for i in range(a, b):
+            c = on[i]
+            if c == off[i]:
+                continue
+            q = off[i]
+            if c in "“‘":
+                ok = q in off[i + 1:b]
+            elif c == "’" and i > a and re.match(r"\w", off[i - 1]):
+                ok = True
+            else:
+                ok = q in off[a:i]
+            if not ok:
+                return (i, c, off[a:b], on[a:b])
+    return None
+
+
+# ------------------------------------------------------------------------------------------
+# scoped documents: every kind of inline scope, exotic characters, quotations across scopes
+
+# spaces that are not the ASCII space, and invisible joiners (a formatter must carry them through; whether
+# they count as whitespace for the quote rules is the same with the option on and off)
+EXOTIC_SEPS = ["\u00a0", "\u00a0", "\u202f", "\u2003", "\u2009", "\u3000", "\u200b", "\u2060"]
+# words with characters a careless normalisation (NFC/NFKC, casefold, whitespace or quote folding) would change,
+# and quote look-alikes that are NOT the straight quotes
+EXOTIC_WORDS = ["10\u00a0EUR", "Mr.\u00a0Smith's", "na\u00efve", "cafe\u0301", "\ufb01ne", "«guillemets»", "„low“", "‚low‘",
+                "5′", "3″", "＂full＂", "＇wide＇", "日本語", "😀", "a\u200db", "\u200fRTL", "soft\u00adhyphen", "“pre”", "‘pre’",
+                "O’Neil", "rock\u00a0'n'\u00a0roll", "…", "non\u2011breaking", "ǅ", "Straße", "İstanbul", "´acute",
+                "x\u0301\u0323", "\u2002\"en\"\u2002", "l\u00a0'q'", "\"a\u00a0b\"", "it\u2019s", "1\u20442"]
+CODE_BODY = ["x = \"a\" + 'b'", "print(\"it's\")", "say \"hi\" 'there'", "plain", "s = 'don''t'", "\"open", "close\"", "10\u00a0EUR \"q\""]
+SPAN_OPEN = ['he said: "This starts', "she wrote: 'It opens", 'and then "we', "so 'the"]
+SPAN_CLOSE = ['and ends here." Then', "and closes there.' After", 'stop" and', "end' so"]
+QUOTE_CHARS = "'\"‘’“”"
+
+
+def quote_seq(text: str) -> str:
+    return "".join(c for c in text if c in QUOTE_CHARS)
+
+
+def scope_text(rng, n: int, cell: bool = False, breaks: bool = False) -> str:
+    """Inline text for one inline scope: the quote vocabulary of the document generator (with code spans, links,
+    tags, inline HTML, escapes) mixed with exotic words and joined by ordinary or exotic spaces; with `breaks`,
+    some of the ordinary spaces are source line breaks."""
+    import mdgen
+    toks = mdgen._split_keep_atoms(mdgen.inline(rng, n, depth=1, quotes=True, tags=True, html=True))
+    for _ in range(rng.randint(0, 2)):
+        toks.insert(rng.randint(0, len(toks)), rng.choice(EXOTIC_WORDS))
+    if cell:
+        toks = [t for t in toks if "|" not in t] or ["x"]
+    breaks = breaks and rng.random() < 0.7
+    out = [toks[0]]
+    for t in toks[1:]:
+        r = rng.random()
+        out.append(rng.choice(EXOTIC_SEPS) if r < 0.15 else "\n" if breaks and r < 0.3 else " ")
+        out.append(t)
+    return "".join(out)
+
+
+def scope_lines(rng, n: int) -> list[str]:
+    """A paragraph as source lines."""
+    return scope_text(rng, n, breaks=True).split("\n")
+
+
+def container_body(rng) -> list[tuple[str, list[str]]]:
+    """Blocks of a multi-paragraph container (list item, block quote, footnote definition): paragraphs and
+    fenced code; with a quotation that opens in one paragraph and closes in the next for half of them."""
+    k = rng.choice([1, 2, 2, 3, 3])
+    body: list[tuple[str, list[str]]] = []
+    for j in range(k):
+        if j and rng.random() < 0.2:
+            code = [rng.choice(CODE_BODY) for _ in range(rng.randint(1, 3))]
+            body.append(("code", ["```"] + code + ["```"]))
+        else:
+            body.append(("text", scope_lines(rng, rng.randint(2, 12))))
+    texts = [b for b in body if b[0] == "text"]
+    if len(texts) >= 2 and rng.random() < 0.6:
+        i = rng.randrange(len(texts) - 1)
+        s = rng.randrange(len(SPAN_OPEN))
+        texts[i][1][-1] += " " + SPAN_OPEN[s]
+        texts[i + 1][1][0] = SPAN_CLOSE[s] + " " + texts[i + 1][1][0]
+    return body
+
+
+def scoped_document(rng) -> tuple[str, list[tuple[str, list[str]]], set[str]]:
+    """(document, its leaves in document order, kinds of block used).  A leaf is ("text", source lines of one
+    inline scope) or ("code", lines of one fenced block)."""
+    out: list[list[str]] = []
+    leaves: list[tuple[str, list[str]]] = []
+    kinds: set[str] = set()
+    fn = 0
+    for _ in range(rng.randint(2, 5)):
+        r = rng.random()
+        if r < 0.16:
+            kinds.add("atx-heading")
+            t = scope_text(rng, rng.randint(1, 6))
+            out.append(["#" * rng.randint(1, 6) + " " + t])
+            leaves.append(("text", [t]))
+        elif r < 0.24:
+            kinds.add("setext-heading")
+            t = scope_text(rng, rng.randint(1, 6))
+            out.append([t, rng.choice("=-") * rng.randint(3, 6)])
+            leaves.append(("text", [t]))
+        elif r < 0.38:
+            kinds.add("paragraph")
+            ls = scope_lines(rng, rng.randint(2, 25))
+            out.append(ls)
+            leaves.append(("text", ls))
+        elif r < 0.54:
+            kinds.add("table")
+            cols = rng.randint(1, 3)
+            rows = []
+            for _r in range(rng.randint(1, 3)):
+                cells = [scope_text(rng, rng.randint(1, 3), cell=True) for _c in range(cols)]
+                if cols >= 2 and rng.random() < 0.4:      # a quotation across two cells of a row
+                    s = rng.randrange(len(SPAN_OPEN))
+                    cells[0] += " " + SPAN_OPEN[s]
+                    cells[1] = SPAN_CLOSE[s] + " " + cells[1]
+                rows.append(cells)
+                leaves.extend(("text", [c]) for c in cells)
+            fmt = lambda cells: "| " + " | ".join(cells) + " |"
+            out.append([fmt(rows[0]), fmt([rng.choice(["---", ":---", "---:"]) for _c in range(cols)])] + [fmt(r_) for r_ in rows[1:]])
+        else:
+            if r < 0.70:
+                kind, first, ind = "list-item", rng.choice(["- ", "* ", "1. ", "12) "]), None
+            elif r < 0.82:
+                kind, first, ind = "block-quote", "> ", "> "
+            else:
+                fn += 1
+                kind, first, ind = "footnote", f"[^n{fn}]: ", "    "
+                ref = [f"Text with a note[^n{fn}] inside it."]
+                out.append(ref)
+                leaves.append(("text", ref))
+            kinds.add(kind)
+            ind = " " * len(first) if ind is None else ind
+            lines: list[str] = []
+            n_items = rng.randint(1, 2) if kind == "list-item" else 1
+            for _i in range(n_items):
+                body = container_body(rng)
+                leaves.extend(body)
+                if len([b for b in body if b[0] == "text"]) > 1:
+                    kinds.add(kind + ":multi-paragraph")
+                if any(b[0] == "code" for b in body):
+                    kinds.add(kind + ":code")
+                flat: list[str] = []
+                for j, (_k, ls) in enumerate(body):
+                    if j:
+                        flat.append("")
+                    flat.extend(ls)
+                if lines:
+                    lines.append("")
+                for j, l in enumerate(flat):
+                    p = first if j == 0 else ind
+                    lines.append((p + l) if l else p.rstrip())
+            out.append(lines)
+    doc = "\n\n".join("\n".join(b) for b in out) + "\n"
+    return doc, leaves, kinds
+
+
+def scoped_oracle(ctx: Ctx, n: int) -> None:
+    import mdgen
+    from flowmark import reformat_text
+    rng = ctx.rng
+    for i in range(n):
+        doc, leaves, kinds = scoped_document(rng)
+        o = mdgen.rand_opts(rng)
+        o.pop("smartquotes", None)
         case = {"doc": doc, "opts": o}
-        if not qrel_ok(off, on):
-            ctx.fail("Q_DOC: smartquotes on/off differ in length, line breaks or in a non-quote character", case, {"off": off, "on": on})
+        try:
+            off = reformat_text(doc, smartquotes=False, **o)
+            on = reformat_text(doc, smartquotes=True, **o)
+        except Exception as e:
+            ctx.fail("format raised", case, repr(e))
             continue
-        # protected spans (located in the OFF output) must be untouched
-        for a, b in mdgen.protected_spans(off):
-            if off[a:b] != on[a:b]:
-                ctx.fail("Q_PROTECTED: a quote inside code/tag/HTML/URL/escape changed", case, {"span": off[a:b], "became": on[a:b]})
-                break
+        ctx.count(["scoped", doc, o], nontrivial=on != off, sample=(i % 97 == 5))
+        ctx.bump("scoped:documents")
+        for k in sorted(kinds):
+            ctx.bump("scoped:" + k)
+        if any(ord(c) > 0x7f and c not in "“”‘’—" for c in doc):
+            ctx.bump("scoped:with-exotic-characters")
+        if not onoff_oracles(ctx, case, off, on):
+            continue
+        # Q_LOCAL: pairing never looks beyond one paragraph/heading/cell, so what happens to the quotes of a
+        # scope does not depend on the document around it: formatted on its own (as a paragraph) the scope
+        # shows the same sequence of straight/curly quote characters.  Code blocks show their own, unchanged.
+        exp = []
+        try:
+            for kind, ls in leaves:
+                if kind == "code":
+                    exp.append(quote_seq("\n".join(ls)))
+                else:
+                    exp.append(quote_seq(reformat_text("\n".join(ls) + "\n", smartquotes=True, **o)))
+        except Exception as e:
+            ctx.fail("format raised", {"doc": "\n".join(ls) + "\n", "opts": o}, repr(e))
+            continue
+        got = quote_seq(on)
+        if got != "".join(exp):
+            # name the first scope whose quotes come out differently inside the document
+            at, which = 0, None
+            for (kind, ls), e in zip(leaves, exp):
+                if got[at:at + len(e)] != e:
+                    which = {"scope": "\n".join(ls), "alone": e, "in_document": got[at:at + len(e)]}
+                    break
+                at += len(e)
+            ctx.fail("Q_LOCAL: the quotes of a paragraph/heading/cell are converted differently inside the document than on its own "
+                     "(pairing or context beyond one paragraph)", case, {"first_difference": which, "on": on})
+    ctx.rule("scoped: 2–5 blocks out of ATX/setext heading, paragraph, table, list items / block quote / footnote definition with 1–3 "
+             "paragraphs and fenced code; scope text = quote vocabulary + exotic words, 15 % non-ASCII spaces; quotation across "
+             "consecutive paragraphs of a container (60 %) or cells of a row (40 %); oracles Q_DOC, Q_PROTECTED, Q_PAIRED, Q_LOCAL")
 
 
 def search(ctx: Ctx) -> None:
@@ -116,6 +372,7 @@ def search(ctx: Ctx) -> None:
         if t is not None and not qrel_ok(t, smart_quotes(t)):
             ctx.fail("Q_POINTWISE: smart_quotes changed something other than a straight quote into its curly form", {"text": t}, smart_quotes(t))
     doc_oracle(ctx, 8000)
+    scoped_oracle(ctx, 4000)
 
 
 def replay(ctx: Ctx, path: str) -> int:
